@@ -402,6 +402,8 @@ func sequentialCommit(ps *atree.PersistentSlabStorage, regs map[atree.SlabID][]b
 	return out, nil
 }
 
+var c16HangSeen int64 // a preload hang was already reported by this process
+
 var c16Busy int64 // workers currently inside a callback (observed by the committing goroutine on error)
 
 func jitterHook(r *rand.Rand, mu *sync.Mutex, level int) func(uint64) error {
@@ -727,9 +729,57 @@ func runC16(c *CaseCtx) *CaseResult {
 					return fail(viol("parallel-error", "retry after a ledger failure differs from the sequential reference"))
 				}
 				res.Obs["ledger-error-scenarios"]++
-			case 2: // corrupt register: decode error in preload
+			case 2: // preload error paths: ledger read failure at the first / a middle / the last id, and a corrupt register
 				if err := w.Commit(false, 2); err != nil {
 					return fail(err)
+				}
+				{
+					regs := w.led.Snapshot()
+					ids := sortedIDs(regs)
+					for _, pos := range []int{1, len(ids) / 2, len(ids)} {
+						if atomic.LoadInt64(&c16HangSeen) != 0 {
+							break // already reported once by this process; every further probe would cost minutes
+						}
+						// sequential reference: the one-goroutine path (fewer than 11 ids at a time is sequential by construction)
+						led := NewLedgerFrom(regs, nil)
+						led.FailRetrieve = func(n int, _ atree.SlabID) bool { return n == pos }
+						ps := newStorage(led)
+						blobDecodeHook.Store(jh)
+						// "never returns" is observed as bounded progress in two stages: the call normally takes milliseconds;
+						// if it has not returned after 60 s it is repeated on a fresh storage with 120 s; only a second
+						// timeout is reported (the blocked goroutines of the first attempt are abandoned).
+						call := func(limit time.Duration) (error, bool) {
+							led := NewLedgerFrom(regs, nil)
+							led.FailRetrieve = func(n int, _ atree.SlabID) bool { return n == pos }
+							ps := newStorage(led)
+							ch := make(chan error, 1)
+							go func() { ch <- ps.BatchPreload(ids, workers) }()
+							select {
+							case e := <-ch:
+								return e, true
+							case <-time.After(limit):
+								return nil, false
+							}
+						}
+						_ = ps
+						err, returned := call(60 * time.Second)
+						if !returned {
+							res.Obs["preload-first-stage-timeouts"]++
+							if err, returned = call(120 * time.Second); !returned {
+								blobDecodeHook.Store((func(uint64) error)(nil))
+								atomic.StoreInt64(&c16HangSeen, 1)
+								return fail(viol("parallel-hang", "BatchPreload (%d workers, %d ids) did not return after ledger read %d failed (twice: 60 s, then 120 s; normal duration is milliseconds)", workers, len(ids), pos))
+							}
+						}
+						blobDecodeHook.Store((func(uint64) error)(nil))
+						if err == nil {
+							return fail(viol("parallel-error", "BatchPreload (%d workers) returned nil although ledger read %d of %d failed", workers, pos, len(ids)))
+						}
+						if !errors.Is(err, ErrInjected) {
+							return fail(viol("parallel-error", "BatchPreload (%d workers) with a failing ledger read returned an unrelated error: %v", workers, err))
+						}
+						res.Obs["preload-read-failure-scenarios"]++
+					}
 				}
 				regs := w.led.Snapshot()
 				ids := sortedIDs(regs)
@@ -887,11 +937,11 @@ func init() {
 	})
 	register(&Prop{
 		ID: "C16", Level: "exploration", Run: runC16, Cases: cases(96, 480), MinNonTrivial: 8, Race: true,
-		Shards: func(string) int { return 8 },
+		Shards: func(string) int { return 9 }, // coprime with the 4 modes, so every worker process sees every mode
 		Rule: "race-detector build (every report is a violation). Cases cycle over 4 modes: (1) FastCommit / NondeterministicFastCommit with workers {1,2,3,4,8,16,64} x GOMAXPROCS {1,2,4,16} x 3 jitter levels, jitter injected inside caller-supplied Storable.Encode and ledger calls, compared with a sequential re-implementation (sorted keys -> EncodeSlab -> store): registers, cache content, pending set, error; " +
-			"(2) BatchPreload with the same worker/GOMAXPROCS grid and jitter inside the storable decoder, shuffled ids incl. absent ones, compared with sequential decoding: cache ids + re-encoded bytes; (3) error paths: one failing storable, ledger failure on the k-th write while encoder workers are still busy (then retry must converge to the sequential reference), truncated register in preload; " +
+			"(2) BatchPreload with the same worker/GOMAXPROCS grid and jitter inside the storable decoder, shuffled ids incl. absent ones, compared with sequential decoding: cache ids + re-encoded bytes; (3) error paths: one failing storable (array and map slabs), ledger store/delete failure on the k-th write while encoder workers are still busy (then retry must converge to the sequential reference), ledger READ failure at the first / middle / last id of a parallel preload (must return the error; 'never returns' is a two-stage bounded-progress observation: 60 s, then 120 s on a fresh storage, normal duration is milliseconds), truncated register in preload; " +
 			"(4) G in {2,4,8,16,32} goroutines each with its own ledger/storage/containers run seeded map/array histories with commits concurrently: transcript hash and final registers of each must equal its solo run (before and after the concurrent phase). non-trivial = every case (each compares several configurations); distinct by case seed",
 		Assumptions: []string{"interleavings are sampled, not enumerated; the race detector only sees executed interleavings", "global settings (slab size) are set before any goroutine starts"},
-		Mandatory:   []string{"parallel-commits-compared", "parallel-preloads-compared", "encode-error-scenarios", "ledger-error-scenarios", "decode-error-scenarios", "concurrent-client-rounds", "distinct-relaxed-store-orders"},
+		Mandatory:   []string{"parallel-commits-compared", "parallel-preloads-compared", "encode-error-scenarios", "ledger-error-scenarios", "decode-error-scenarios", "preload-read-failure-scenarios", "concurrent-client-rounds", "distinct-relaxed-store-orders"},
 	})
 }
